@@ -30,6 +30,33 @@ theorem paintOps_bufOps (r : RState) (fq sh : Bool) (n : Nat) : ∀ (ls : List L
     · exact paintLineOps_bufOps r fq sh n i l op hop
     · exact ih (i + 1) op hop
 
+theorem queuedLineOps_isBufOp (w : Nat) (l : Line) : ∀ op ∈ queuedLineOps w l, isBufOp op = true := by
+  have : (queuedLineOps w l).all isBufOp = true := by
+    unfold queuedLineOps
+    split <;> simp [isBufOp]
+  simpa [List.all_eq_true] using this
+
+/-- every operation a flush writes (cursor-up / HOME, the printed lines, the paint loop, the final
+cursor move) acts on the active buffer only -/
+theorem flush_bufOps (r : RState) : ∀ op ∈ (flush r).2, isBufOp op = true := by
+  intro op hop
+  unfold flush at hop
+  split at hop
+  · simp at hop
+  · simp only [List.mem_append] at hop
+    rcases hop with ((hop | hop) | hop) | hop
+    · split at hop
+      · simp at hop; subst hop; rfl
+      · split at hop
+        · simp at hop; subst hop; rfl
+        · simp at hop
+    · split at hop
+      · obtain ⟨l, _, hl⟩ := List.mem_flatMap.1 hop
+        exact queuedLineOps_isBufOp _ l op hl
+      · simp at hop
+    · exact paintOps_bufOps _ _ _ _ _ _ op hop
+    · split at hop <;> (simp at hop; subst hop; rfl)
+
 /-! ### the frame -/
 
 /-- the lines a flush paints, as a function of the height and the view -/
